@@ -195,6 +195,49 @@ def stale_worlds(r, n):
     return worlds
 
 
+def hand_edited_json_worlds(r):
+    """a JSON document is recorded, then the stored text is replaced FROM OUTSIDE by the same document in another
+    presentation (compact, other indentation, other member order, a final newline, bytes after the value, a
+    duplicate member): the stored text differs from the formatted value, so presenting the document again -
+    updating not enabled - is a mismatch that must be reported, through MatchJSON and MatchStandaloneJSON alike
+    (a comparison that re-formats the stored side takes all of these for "the same")."""
+    from gen import Call
+    worlds = []
+    doc = b'{"b": 1, "a": {"y": [1, 2], "x": "s"}}'
+    edits = [('compact', b'{"a":{"x":"s","y":[1,2]},"b":1}'),
+             ('indent4', b'{\n    "a": {\n        "x": "s",\n        "y": [1, 2]\n    },\n    "b": 1\n}'),
+             ('order', b'{\n "b": 1,\n "a": {\n  "y": [1, 2],\n  "x": "s"\n }\n}'),
+             ('trailing-bytes', b'{\n "a": {\n  "x": "s",\n  "y": [1, 2]\n },\n "b": 1\n} trailing'),
+             ('second-value', b'{\n "a": {\n  "x": "s",\n  "y": [1, 2]\n },\n "b": 1\n}\n{"c": 3}'),
+             ('duplicate', b'{\n "a": {\n  "x": "s",\n  "y": [1, 2]\n },\n "a": {\n  "x": "s",\n  "y": [1, 2]\n },\n "b": 1\n}'),
+             ('two-spaces', b'{\n "a":  {\n  "x": "s",\n  "y": [1, 2]\n },\n "b": 1\n}'),
+             ('final-newline', b'{\n "a": {\n  "x": "s",\n  "y": [1, 2]\n },\n "b": 1\n}\n')]
+    n = 0
+    for tag, text in edits:
+        for kind in ('sajson', 'json'):
+            if kind == 'json' and tag == 'final-newline':
+                continue            # (the multi-entry framing has its own rule for one final newline of a body)
+            for ci, upd, opt in (NOUPD[n % len(NOUPD)], NOUPD[(n + 3) % len(NOUPD)]):
+                n += 1
+                w = World('c02-handjson-%s-%s-%d' % (tag, kind, n))
+                w.add(mode_line(False, ''))
+                w.add(cfg_line(1, 'snaps'))
+                w.add(cfg_line(2, 'snaps', None, None, opt))
+                w.add('begin 1 %s' % core.hx(b'TestHand'))
+                w.add(Call(kind, doc, r.choice(['s', 'b'])).op(1, 1))
+                w.add('end 1')
+                if kind == 'sajson':
+                    w.add('fsput %s %s' % (core.hx('snaps/TestHand_1.snap.json'), core.hx(text)))
+                else:
+                    w.add('fsput %s %s' % (core.hx('snaps/zz_verif_harness_test.snap'), core.hx(b'\n[TestHand - 1]\n' + text + b'\n---\n')))
+                w.add(mode_line(ci, upd))
+                w.add('begin 2 %s' % core.hx(b'TestHand'))
+                w.add(Call(kind, doc, r.choice(['s', 'b'])).op(2, 2), ('re-presented-stored-json-reported', exp_one_error_no_write))
+                w.add('end 2')
+                worlds.append(w)
+    return worlds
+
+
 def popular_worlds(r, n):
     """long values (200-330 lines) in which some line is POPULAR (it makes up more than 1 % of the text: the
     separator of a record dump, a closing brace): difflib's junk heuristic purges such lines from its index, so
@@ -276,6 +319,7 @@ def run(ctx):
     worlds += collision_worlds(Gen(ctx.seed * 1000003 + 202).r, ctx.tier == 'thorough')
     worlds += popular_worlds(Gen(ctx.seed * 1000003 + 2003).r, 12 if ctx.tier == 'quick' else 150)
     worlds += stale_worlds(Gen(ctx.seed * 1000003 + 2002).r, 40 if ctx.tier == 'quick' else 600)
+    worlds += hand_edited_json_worlds(Gen(ctx.seed * 1000003 + 2004).r)
     run_suite(ctx, 'match.mismatch', worlds, known=known)
     # colours on: the report must still be non-empty (no model: ANSI layout is not modelled)
     gc = Gen(ctx.seed * 1000003 + 22)
